@@ -1,4 +1,4 @@
-CONSTANTS G <- GS  NE = 2  K = 2  Drain = TRUE  SignalFirst = FALSE
+CONSTANTS G <- GS  NE = 2  K = 2  Drain = TRUE  SignalFirst = TRUE
 SPECIFICATION Spec
 INVARIANTS TypeOK OnceEach OrderPerGoroutine FlushComplete
 PROPERTIES FlushReturns
